@@ -525,8 +525,9 @@ def judge(rec, model=None):
     for i in sorted(set(j.violations) | set(real_bad)):
         kind, t, key, owned, op, site = ev[i]
         entry = rec.ops.get(op, "?")
-        u = j.unlocked.setdefault(entry, dict(muts=0, reads=0, keys={}, sites={}, thread=rec.tnames.get(t)))
+        u = j.unlocked.setdefault(entry, dict(muts=0, reads=0, keys={}, sites={}, inner=set(), thread=rec.tnames.get(t)))
         u["muts" if kind == MUT else "reads"] += 1
+        u["inner"].add((site or ["?"])[0])
         u["keys"][key] = u["keys"].get(key, 0) + 1
         s = " < ".join(site or ["?"])
         if len(u["sites"]) < 12 or s in u["sites"]:
